@@ -1,11 +1,13 @@
 import Aegean.Driver.Common
 import Aegean.Generated.C13
 import Aegean.Model.C13
+import Aegean.Model.C13Glue
 
 /-
   C13 driver ops (all floats as `x%016x` bit patterns; NaN = blank / masked):
 
   gauss x y amp xo yo sx sy theta                      -> Gen.C13.gauss at Float
+  leaf <name> <4 or 5 floats>                          -> the regenerated leaf (amp r innerclip outerclip sampling | data rmsimg innerclip outerclip)
   islands H W seed flood <H*W im> <H*W bkg> <H*W rms>  -> components of the flood mask:  "own box i j k ...|..."
                                                           (own = owns a seed pixel, box = a seed pixel in its bounding box)
   curve imgH imgW xmin xmax ymin ymax r0 c0 sh sw <sh*sw img>
@@ -37,6 +39,19 @@ def handle (ws : List String) : String :=
   | ["gauss", x, y, amp, xo, yo, sx, sy, th] =>
     match floats? [x, y, amp, xo, yo, sx, sy, th] with
     | some a => showFloat (Gen.C13.gauss a[0]! a[1]! a[2]! a[3]! a[4]! a[5]! a[6]! a[7]!)
+    | none => "bad-op"
+  | "leaf" :: name :: rest =>
+    match floats? rest with
+    | some a =>
+      let L : Leaves Float := genLeaves
+      match name, a.size with
+      | "ampMinPos", 5 => showFloat (L.ampMinPos a[0]! a[1]! a[2]! a[3]! a[4]!)
+      | "ampMaxPos", 5 => showFloat (L.ampMaxPos a[0]! a[1]! a[2]! a[3]! a[4]!)
+      | "ampMinNeg", 5 => showFloat (L.ampMinNeg a[0]! a[1]! a[2]! a[3]! a[4]!)
+      | "ampMaxNeg", 5 => showFloat (L.ampMaxNeg a[0]! a[1]! a[2]! a[3]! a[4]!)
+      | "summitArgPos", 4 => showFloat (L.summitArgPos a[0]! a[1]! a[2]! a[3]!)
+      | "summitArgNeg", 4 => showFloat (L.summitArgNeg a[0]! a[1]! a[2]! a[3]!)
+      | _, _ => "bad-op"
     | none => "bad-op"
   | "islands" :: H :: W :: seed :: flood :: rest =>
     match H.toNat?, W.toNat?, parseFloat? seed, parseFloat? flood, floats? rest with
@@ -79,7 +94,8 @@ def handle (ws : List String) : String :=
             curve := fun p => cv.getD (idx w p) 0,
             sampling := fun p => a.getD (2 * n + idx w p) (0.0 / 0.0) }
         let P : Params Float := { inner := inner, outer := outer,
-                                  maxSummits := if maxS < 0 then none else some maxS.toNat }
+                                  maxSummits := if maxS < 0 then none else some maxS.toNat,
+                                  leaves := genLeaves }
         let pre := s!"neg={b01 (isNegative I)} "
         match estimate P I with
         | none => pre ++ "none"
